@@ -51,7 +51,7 @@ func ctrOf(id string) int {
 
 // GenCollide emits the collision cases.
 func GenCollide(g *vh.Gen) {
-	for _, j := range []int{0, 1, 2, 3, 7} {
+	for _, j := range []int{0, 1, 2, 3, 7, 40, 200} {
 		g.Emit("collide", vh.I(j), "0")
 	}
 	for i := 0; i < g.N(4, 60); i++ {
